@@ -336,4 +336,169 @@ theorem filter_key_length_le_one {κ β : Type} [DecidableEq κ] (k : κ) :
     · simp [h]
       exact ih
 
+/-! ### P2: `claimVips` without the accumulator -/
+
+theorem firstClaimant_host_mem (v : String) : ∀ (l : List VSvc) (h : String), firstClaimant v l = some h → h ∈ l.map (·.host)
+  | [], h, e => by simp [firstClaimant] at e
+  | s :: r, h, e => by
+    by_cases hv : s.vip = v
+    · simp [firstClaimant, hv] at e
+      simp [e]
+    · simp [firstClaimant, hv] at e
+      simp [firstClaimant_host_mem v r h e]
+
+theorem claimVips_spec : ∀ (l : List VSvc) (c : List String), (l.map (·.host)).Nodup →
+    claimVips l c = l.map (fun s => (s.host, keepsVip c l s))
+  | [], c, _ => by simp [claimVips]
+  | s :: r, c, nd => by
+    rw [List.map_cons] at nd
+    have ndc := List.nodup_cons.1 nd
+    have tail : ∀ c', (∀ t ∈ r, keepsVip c' r t = keepsVip c (s :: r) t) →
+        claimVips r c' = r.map (fun t => (t.host, keepsVip c (s :: r) t)) := by
+      intro c' h
+      rw [claimVips_spec r c' ndc.2]
+      apply List.map_congr_left
+      intro t ht
+      rw [h t ht]
+    have hne : ∀ t ∈ r, t.host ≠ s.host := fun t ht e => ndc.1 (e ▸ List.mem_map.2 ⟨t, ht, rfl⟩)
+    have self : firstClaimant s.vip (s :: r) = some s.host := by simp [firstClaimant]
+    unfold claimVips
+    by_cases h1 : s.vip = ""
+    · simp only [h1, if_true, List.map_cons]
+      rw [tail c]
+      · simp [keepsVip, h1]
+      · intro t ht
+        unfold keepsVip
+        by_cases e : s.vip = t.vip
+        · have : t.vip = "" := by rw [← e, h1]
+          simp [this]
+        · simp [firstClaimant, e]
+    · by_cases h2 : c.contains s.vip = true
+      · have hm : s.vip ∈ c := by simpa using h2
+        simp only [h1, h2, if_true, if_false, List.map_cons]
+        rw [tail c]
+        · simp [keepsVip, hm]
+        · intro t ht
+          unfold keepsVip
+          by_cases e : s.vip = t.vip
+          · rw [← e]; simp [hm]
+          · simp [firstClaimant, e]
+      · simp only [h1, h2, if_false, List.map_cons]
+        rw [tail (s.vip :: c)]
+        · have hm : ¬ s.vip ∈ c := by simpa using h2
+          simp [keepsVip, h1, hm, self]
+        · intro t ht
+          unfold keepsVip
+          by_cases e : s.vip = t.vip
+          · have hh : ¬ s.host = t.host := fun x => hne t ht x.symm
+            simp [firstClaimant, e, hh]
+          · have e' : ¬ t.vip = s.vip := fun x => e x.symm
+            simp [firstClaimant, e, e']
+
+/-- In a list ordered by hostname the first claimant of an address has the least hostname among the claimants. -/
+theorem firstClaimant_least (v : String) : ∀ (l : List VSvc) (h : String),
+    l.Pairwise (fun a b => vsvcLess b a = false) → firstClaimant v l = some h →
+    ∀ s ∈ l, s.vip = v → ¬ s.host < h
+  | [], _, _, e => by simp [firstClaimant] at e
+  | x :: r, h, pw, e => by
+    have pwc := List.pairwise_cons.1 pw
+    intro s hs hv
+    by_cases hx : x.vip = v
+    · simp [firstClaimant, hx] at e
+      rcases List.mem_cons.1 hs with rfl | hr
+      · rw [← e]; exact String.lt_irrefl _
+      · have := pwc.1 s hr
+        rw [← e]
+        simpa [vsvcLess] using this
+    · simp [firstClaimant, hx] at e
+      rcases List.mem_cons.1 hs with rfl | hr
+      · exact absurd hv hx
+      · exact firstClaimant_least v r h pwc.2 e s hr hv
+
+/-! ### P6: the fold of mergeDestinationRule -/
+
+theorem mergeFold_src_aux : ∀ (l : List DRule) (m : MergedDR),
+    (l.foldl mergeStep (some m)).map (·.src) = some (m.src ++ l.map (·.cfg.id))
+  | [], m => by simp
+  | d :: r, m => by
+    rw [List.foldl_cons]
+    show (r.foldl mergeStep (some _)).map (·.src) = _
+    rw [mergeFold_src_aux r]
+    simp
+
+theorem mergeFold_policy_aux : ∀ (l : List DRule) (m : MergedDR),
+    (l.foldl mergeStep (some m)).map (·.policy) = some (if m.policy = "" then firstPolicy l else m.policy)
+  | [], m => by simp [firstPolicy]
+  | d :: r, m => by
+    rw [List.foldl_cons]
+    show (r.foldl mergeStep (some _)).map (·.policy) = _
+    rw [mergeFold_policy_aux r]
+    by_cases h : m.policy = ""
+    · by_cases h2 : d.policy = ""
+      · simp [h, h2, firstPolicy]
+      · simp [h, h2, firstPolicy]
+    · simp [h]
+
+theorem lookupOwner_append (s : String) : ∀ (a b : List (String × Nat)),
+    lookupOwner s (a ++ b) = (lookupOwner s a).or (lookupOwner s b)
+  | [], b => by simp [lookupOwner]
+  | e :: r, b => by
+    by_cases h : e.1 = s
+    · simp [lookupOwner, h]
+    · simp [lookupOwner, h, lookupOwner_append s r b]
+
+theorem lookupOwner_none_iff (s : String) : ∀ (a : List (String × Nat)),
+    lookupOwner s a = none ↔ (a.map (·.1)).contains s = false
+  | [] => by simp [lookupOwner]
+  | e :: r => by
+    by_cases h : e.1 = s
+    · simp [lookupOwner, h]
+    · have h' : ¬ s = e.1 := fun x => h x.symm
+      simp [lookupOwner, h, h', lookupOwner_none_iff s r]
+
+theorem lookupOwner_new (s : String) (id : Nat) (names : List String) (hn : names.contains s = false) :
+    ∀ subs : List String,
+    lookupOwner s ((subs.filter (fun x => !names.contains x)).map (fun x => (x, id)))
+      = if subs.contains s then some id else none
+  | [] => by simp [lookupOwner]
+  | x :: r => by
+    have ih := lookupOwner_new s id names hn r
+    by_cases hx : x = s
+    · subst hx
+      rw [List.filter_cons]
+      simp only [hn, Bool.not_false, if_true, List.map_cons, lookupOwner]
+      simp
+    · have hx' : ¬ s = x := fun e => hx e.symm
+      by_cases hc : names.contains x = true
+      · rw [List.filter_cons]
+        simp only [hc, Bool.not_true, Bool.false_eq_true, if_false]
+        rw [ih]
+        simp [hx']
+      · rw [List.filter_cons]
+        have hc' : names.contains x = false := by simpa using hc
+        simp only [hc', Bool.not_false, if_true, List.map_cons, lookupOwner, hx, if_false]
+        rw [ih]
+        simp [hx']
+
+theorem mergeFold_owner_aux (s : String) : ∀ (l : List DRule) (m : MergedDR),
+    (l.foldl mergeStep (some m)).bind (fun r => lookupOwner s r.subsets)
+      = (lookupOwner s m.subsets).or (firstWithSubset s l)
+  | [], m => by simp [firstWithSubset]
+  | d :: r, m => by
+    rw [List.foldl_cons]
+    show (r.foldl mergeStep (some _)).bind (fun r => lookupOwner s r.subsets) = _
+    rw [mergeFold_owner_aux s r]
+    simp only [lookupOwner_append]
+    cases hm : lookupOwner s m.subsets with
+    | some e => simp
+    | none =>
+      have hn := (lookupOwner_none_iff s m.subsets).1 hm
+      rw [lookupOwner_new s d.cfg.id _ hn d.subsets]
+      by_cases hc : d.subsets.contains s = true
+      · have hm' : s ∈ d.subsets := by simpa using hc
+        simp [hm', firstWithSubset]
+      · have hm' : ¬ s ∈ d.subsets := by simpa using hc
+        simp [hm', firstWithSubset]
+
+
 end IstioModel.C17
